@@ -230,6 +230,19 @@ def run(ck):
         jobs.append((vn['h_exec'], [(c, 'one') for c, m in single[k::8]], os.path.join(ck.workdir, 'n%d' % k), 'nots'))
         jobs.append((vci['h_exec'], cis[k::8], os.path.join(ck.workdir, 'ci%d' % k), 'ci'))
     names, dcmds = ds_plan(v['repo'], ck.tier)
+    # /etc/hosts as the domain data source may find it (bound over the real file in a private mount namespace)
+    hn = os.uname().nodename.encode()
+    HOSTS = [b'', b'\n', b'127.0.0.1 localhost', hn + b'.example.org 10.1.2.3\n', b'10.1.2.3 ' + hn + b'.example.org ' + hn + b'\n', b'10.1.2.3\t' + hn + b'.\n', b'# ' + hn + b'.commented.example\n10.0.0.1 x' + hn + b'.sub.example\n',
+             b'10.1.2.3 ' + b'a' * 1010 + b' ' + hn + b'.cut-by-the-line-buffer.example\n', b'10.1.2.3 ' + b'a' * 1013 + hn + b'.x\n', hn + b'.', hn.upper() + b'.UPPER.EXAMPLE', b'10.1.2.3 ' + hn + b'.' + b'd' * 3000 + b'\n',
+             bytes(range(1, 256)) * 8 + hn + b'.after-binary\n']
+    hlines = ['sinks pipe', 'lean 1', 'noentry', 'cfg ' + H.hx(b'[snoopy]\nmessage_format = %{domain}|%{hostname}\noutput = file:log\n')]
+    for hc in HOSTS:
+        hlines += ['bindover ' + H.hx(hc) + ' ' + H.hx(b'/etc/hosts'), 'call execve %s %s [] -1 2' % (H.hx(b'/bin/p'), H.vec([H.hx(b'p')]))]
+    hr = H.run_script(v['h_exec'], os.path.join(ck.workdir, 'hosts'), '\n'.join(hlines), env_extra={'VERIF_HEXMAX': '0'}, timeout=120)
+    ncalls_h = len([l for l in hr['lines'] if 'call' in l])
+    if not hr['done'] or hr['san']:
+        hc = HOSTS[ncalls_h] if ncalls_h < len(HOSTS) else b'?'
+        ck.violation('C02:abort:hosts_file=%s' % hc[:40].decode('latin-1').replace('\n', '|'), {'hosts': hc[:300].decode('latin-1'), 'rc': hr['rc'], 'signal': hr['signal'], 'sanitizer': hr['san'][:1]})
     per = (len(dcmds) + 15) // 16
     djobs = [(h_ds, dcmds[i:i + per], os.path.join(ck.workdir, 'd%d' % (i // per))) for i in range(0, len(dcmds), per)]
     res = pmap(lambda j: ('x', run_chunk(j)) if j[0] != h_ds else ('d', run_ds(j)), jobs + djobs)
